@@ -541,7 +541,8 @@ impl BuiltInFunction {
 
                 let start_i64 = start as i64;
                 let end_i64 = end as i64;
-                let length = end_i64 - start_i64;
+                // The casts saturate and the difference can overflow: range(-1, 1e30)
+                let length = end_i64.checked_sub(start_i64).unwrap_or(i64::MAX);
 
                 if length > u32::MAX as i64 {
                     return Err(RuntimeError::new(format!(
@@ -1811,7 +1812,16 @@ impl FunctionDef {
                 for (idx, expected_arg) in expected_args.iter().enumerate() {
                     match expected_arg {
                         LambdaArg::Required(arg_name) => {
-                            local_bindings.insert(arg_name.clone(), args[idx]);
+                            // A required parameter written after an optional one can be left
+                            // without an argument even though the count passed the arity check
+                            let value = args.get(idx).copied().ok_or_else(|| {
+                                RuntimeError::new(format!(
+                                    "in {}: missing argument for required parameter \"{}\"",
+                                    self.get_name(),
+                                    arg_name
+                                ))
+                            })?;
+                            local_bindings.insert(arg_name.clone(), value);
                         }
                         LambdaArg::Optional(arg_name) => {
                             local_bindings.insert(
